@@ -140,3 +140,27 @@ Print Assumptions C03_source_add_links.
 Print Assumptions C03_source_add_links_bytes.
 Print Assumptions C03_source_weighted_reachable.
 Print Assumptions C03_source_store_stays_wf.
+
+(* ---- the page-link request of the public API on the code translated from the source on every run (GenTraphL.v:
+   Traph.get_page_links over the translated lru_node, windup_lru and weighted link traversal).  For EVERY history, on any trie
+   storage holding the trie file of the state reached and any link storage holding its link file, for all eight switch settings:
+   the translated request never fails, answers without repetition exactly the SPECIFICATION's weighted pairs (weight = number of
+   submissions of the link), and leaves every byte of the trie file as it was.  Size hypotheses: both files below 2^64 bytes. *)
+From Traph Require GenTraphL GenTraphLFacts GenTrieFacts TraceDefs.
+Theorem C03_source_page_links : forall d rs h, wf_rules rs -> Forall wf_op h ->
+  let s := run d rs h in let a := srun d rs h in
+  forall sg sgl l inb int outb,
+    GenTrieFacts.trep (TraceDefs.files_of s) sg -> lrep (stubs s) sgl -> fits (nb s * bsz) -> fits (saddr (length (stubs s))) -> wf_lru l ->
+    exists sg' ans, GenTraphL.py_traph_get_page_links sg sgl l inb int outb = Some (sg', ans) /\
+      NoDup ans /\ pm_array sg' = pm_array sg /\
+      (forall x y w, In (x, y, w) ans <-> In (x, y, w) (s_page_links l inb int outb a)) /\
+      (forall x y w, In (x, y, w) ans -> w = count_link x y (a_links a)).
+Proof.
+  intros d rs h H1 H2 s a sg sgl l inb int outb Hrep Hlrep Hf1 Hf2 Hwf.
+  destruct (GenTraphLFacts.py_traph_get_page_links_spec d rs h H1 H2 sg sgl l inb int outb Hrep Hlrep Hf1 Hf2 Hwf) as (sg' & E & _ & Harr).
+  exists sg', (page_links l inb int outb s). fold s in E. split; [exact E|].
+  split; [exact (C03_page_links_nodup d rs h H1 H2 l inb int outb Hwf)|]. split; [exact Harr|]. split.
+  - exact (C03_page_links d rs h H1 H2 l inb int outb Hwf).
+  - intros x y w Hin. exact (proj1 (proj2 (C03_page_links_weight d rs h H1 H2 l inb int outb x y w Hwf Hin))).
+Qed.
+Print Assumptions C03_source_page_links.
